@@ -155,7 +155,8 @@ prop('C12',
 prop('C05',
      [('R00.dyn', RG.rule_no_dynamic), ('R05.g', RCa.rule_pair_correlation), ('R05.w', RCa.rule_pmf),
       ('R05.s', RCa.rule_structure_factor), ('R05.b2', RCa.rule_second_virial), ('R05.x', RCa.rule_chi),
-      ('R05.l', RCa.rule_spinodal), ('R05.p', RCa.rule_solvation), ('R05.sym', RCa.rule_matrix_symmetry)],
+      ('R05.l', RCa.rule_spinodal), ('R05.p', RCa.rule_solvation), ('R05.sym', RCa.rule_matrix_symmetry),
+      ('R06.s', RCa.rule_frame_and_typestate)],
      'Static analysis of pyPRISM/calculate: each of the seven functions is abstractly interpreted on a symbolic PRISM '
      'object (arrays as tensor symbols, pair loops executed once with symbolic type labels, MatrixArray operators '
      'interpreted from their source) for every flag valuation; the returned term is compared with the definition in '
